@@ -612,6 +612,21 @@ impl IceTransportRunner {
     /// removes the transaction from `pending_transactions`.
     async fn run_keepalive_tick(inner: &Arc<IceTransportInner>) -> Option<BoxFuture<'static, ()>> {
         let state = *inner.state.borrow();
+        if state == IceTransportState::Checking
+            && inner.config.transport_mode == crate::TransportMode::WebRtc
+        {
+            // Checks only re-run when new candidates arrive, so a peer that is unreachable
+            // from the start would leave the transport in Checking forever. If nothing at
+            // all was received for the connection timeout since `start()`, give up.
+            let last_nanos = inner.last_received_nanos.load(Ordering::Relaxed);
+            let now_nanos = inner.created_at.elapsed().as_nanos() as u64;
+            let elapsed = Duration::from_nanos(now_nanos.saturating_sub(last_nanos));
+            if elapsed > inner.config.ice_connection_timeout {
+                debug!("ICE: no packet received for {:?} while Checking; failing", elapsed);
+                let _ = inner.state.send(IceTransportState::Failed);
+            }
+            return None;
+        }
         if state == IceTransportState::Connected || state == IceTransportState::Disconnected {
             if inner.config.transport_mode == crate::TransportMode::WebRtc {
                 let last_nanos = inner.last_received_nanos.load(Ordering::Relaxed);
@@ -1113,6 +1128,11 @@ impl IceTransport {
             let mut params = self.inner.remote_parameters.lock();
             *params = Some(remote);
         }
+        // The Checking-phase timeout (see `run_keepalive_tick`) counts from here.
+        self.inner.last_received_nanos.store(
+            self.inner.created_at.elapsed().as_nanos() as u64,
+            Ordering::Relaxed,
+        );
         if let Err(e) = self.inner.state.send(IceTransportState::Checking) {
             debug!("start: failed to set state to Checking: {}", e);
         }
